@@ -77,11 +77,16 @@ func TestVerifBoundedHistoryRoundTrip(t *testing.T) {
 				t.Fatal(err)
 			}
 			loaded, err := loadEvents(file)
+			cases++
 			if err != nil {
-				t.Fatal(err)
+				// the save reported success, yet what it left cannot be loaded: the history is lost at the restart
+				bad++
+				if bad <= 3 {
+					fmt.Printf("BOUNDED-VIOLATION history of %d events %+v: saved without error, but the restarted daemon cannot load the file: %v\n", n, recorded, err)
+				}
+				continue
 			}
 			got := verifHistory(loaded["user"])
-			cases++
 			if len(got) == 0 && len(want) == 0 {
 				continue
 			}
